@@ -117,7 +117,7 @@ def run(ctx):
         return [('Serial', 'OpenMP')[k % 2], O.LAUNCH_MODES[k % 5]]
     wv = [dict(N=3, a=1, b=1, s=1, t=1), dict(N=1, a=3, b=1, s=1, t=1), dict(N=0, a=0, b=0, s=1, t=1), dict(N=4, a=0, b=0, s=2, t=2), dict(N=0, a=4, b=0, s=2, t=2),
           dict(N=2, a=0, b=2, s=1, t=2), dict(N=6, a=0, b=0, s=3, t=2), dict(N=0, a=6, b=0, s=3, t=2), dict(N=0, a=0, b=0, s=1, t=3), dict(N=16, a=0, b=0, s=1, t=1)]
-    qs, rejected = O.make_queries(ctx, progs, O.MODES, O.visit_harness, known_keys=list(known), timeout=600 if thorough else 150, witness_vectors=wv, modes_of=modes_of)
+    qs, rejected = O.make_queries(ctx, progs, O.MODES, O.visit_harness, known_keys=list(known), timeout=1200 if thorough else 600, witness_vectors=wv, modes_of=modes_of)
     if not ctx.only:
         qs += O.known_reconfirm(ctx, progs, known, O.visit_harness)
     C.run_queries(ctx, qs)
